@@ -34,6 +34,7 @@ type Program struct {
 	Paused   bool     `json:"paused,omitempty"`  // pause right after setup
 	CrashAt  int      `json:"crashat,omitempty"` // cut the execution after this many adapter calls and recover (0 = never)
 	Tag      string   `json:"tag,omitempty"`     // promise of the generator: "seq" | "ordered"
+	Consumers int     `json:"consumers,omitempty"` // number of workers consuming the shared distributed adapter (default 1)
 }
 
 type Fault struct {
@@ -91,6 +92,8 @@ type env struct {
 	adapters []*adapter
 	genN     int
 	entered  map[int]int
+	cidx     int
+	shared   *[]*adapter // adapters shared by all consumers of a distributed program
 }
 
 func (e *env) outcome(k int) int {
@@ -105,7 +108,7 @@ var errBoom = errors.New("boom")
 // body is the worker function shared by the three worker kinds.
 func (e *env) body(j varmq.Job[int]) (int, error) {
 	k := j.Data()
-	rt.Log("W", "enter", fmt.Sprintf("%d %s %s", k, sesc(j.ID()), rt.IDOf(j)))
+	rt.Log("W", "enter", fmt.Sprintf("%d %s %s c%d", k, sesc(j.ID()), rt.IDOf(j), e.cidx))
 	e.entered[k]++
 	for i := 0; i < e.p.WFYields; i++ {
 		rt.Yield()
@@ -315,8 +318,18 @@ func (e *env) configs() []any {
 }
 
 func (e *env) newAdapter(prio bool) *adapter {
+	if e.shared != nil && len(*e.shared) > len(e.adapters) {
+		// recovery / further consumer: reuse the adapter that already exists
+		a := (*e.shared)[len(e.adapters)]
+		e.adapters = append(e.adapters, a)
+		return a
+	}
 	a := newAdapter(len(e.adapters), prio, e.p.Faults)
+	a.crashAt = e.p.CrashAt
 	e.adapters = append(e.adapters, a)
+	if e.shared != nil {
+		*e.shared = append(*e.shared, a)
+	}
 	return a
 }
 
@@ -380,11 +393,14 @@ func (e *env) setup() {
 }
 
 func (e *env) sharedAdapter(prio bool) *adapter {
-	if len(e.adapters) > 0 {
-		return e.adapters[0]
+	if len(*e.shared) > 0 {
+		a := (*e.shared)[0]
+		if len(e.adapters) == 0 {
+			e.adapters = append(e.adapters, a)
+		}
+		return a
 	}
-	a := e.newAdapter(prio)
-	return a
+	return e.newAdapter(prio)
 }
 
 // ---------------------------------------------------------------- interpreter
@@ -624,68 +640,124 @@ func ints(xs []int) string {
 	return "[" + strings.Join(s, ",") + "]"
 }
 
-func runProgram(p *Program, cfg rt.Config) *rt.Result {
-	return rt.Run(cfg, func() {
-		e := &env{p: p, jobs: map[int]jobHandle{}, added: map[int]int{}, groups: map[int]groupHandle{}, released: map[int]bool{}, entered: map[int]int{}}
-		e.setup()
-		for i, kind := range p.Queues {
-			if i == 0 && len(p.Preload) > 0 && (kind == "dist" || kind == "distprio" || kind == "pers" || kind == "persprio") {
-				a := e.sharedAdapter(kind == "distprio" || kind == "persprio")
-				a.preload(p.Preload, p.BadEntry)
-			}
-			c := e.call("bind", kind)
-			e.qs = append(e.qs, e.bind(kind))
-			e.ret(c, "bind", fmt.Sprintf("%d %s", i, e.w.Status()))
+func newEnv(p *Program, shared *[]*adapter, cidx int) *env {
+	return &env{p: p, jobs: map[int]jobHandle{}, added: map[int]int{}, groups: map[int]groupHandle{}, released: map[int]bool{}, entered: map[int]int{}, shared: shared, cidx: cidx}
+}
+
+func (e *env) bindAll(first bool) {
+	p := e.p
+	for i, kind := range p.Queues {
+		adapterKind := kind == "dist" || kind == "distprio" || kind == "pers" || kind == "persprio"
+		if first && i == 0 && len(p.Preload) > 0 && adapterKind && len(*e.shared) == 0 {
+			a := e.newAdapter(kind == "distprio" || kind == "persprio")
+			e.adapters = e.adapters[:0] // bind() below takes it again
+			a.preload(p.Preload, p.BadEntry)
 		}
-		if p.Paused {
+		c := e.call("bind", kind)
+		e.qs = append(e.qs, e.bind(kind))
+		e.ret(c, "bind", fmt.Sprintf("%d %s", i, e.w.Status()))
+	}
+}
+
+func (e *env) final(done []bool) {
+	stuck := 0
+	for _, d := range done {
+		if !d {
+			stuck++
+		}
+	}
+	live := rt.NumLive()
+	w := e.w
+	m := w.Metrics()
+	rt.Log("F", "final", fmt.Sprintf("status=%s pending=%d processing=%d conc=%d idle=%d submitted=%d completed=%d successful=%d failed=%d stuck=%d livelib=%d livewf=%d",
+		w.Status(), w.NumPending(), w.NumProcessing(), w.NumConcurrency(), w.NumIdleWorkers(), m.Submitted(), m.Completed(), m.Successful(), m.Failed(), stuck, live["lib"], live["wf"]))
+	for i, q := range e.qs {
+		rt.Log("F", "queue", fmt.Sprintf("%d %d", i, q.NumPending()))
+	}
+}
+
+func runProgram(p *Program, cfg rt.Config) *rt.Result {
+	shared := []*adapter{}
+	res := runPhase(p, cfg, &shared, true)
+	if res.Aborted {
+		// the process died: a fresh process binds to what the adapters hold now
+		for _, a := range shared {
+			a.recover()
+		}
+		cfg2 := cfg
+		cfg2.Seed = cfg.Seed + 7
+		cfg2.Schedule = nil
+		if cfg2.Strategy == "replay" {
+			cfg2.Strategy = "random"
+		}
+		res2 := runPhase(p, cfg2, &shared, false)
+		res.Trace = append(append(res.Trace, "X 0 recover phase2"), res2.Trace...)
+		res.Quiescent = res2.Quiescent
+		res.Crashed = res2.Crashed
+		res.Blocked = res2.Blocked
+		res.Steps += res2.Steps
+	}
+	return res
+}
+
+func runPhase(p *Program, cfg rt.Config, shared *[]*adapter, first bool) *rt.Result {
+	return rt.Run(cfg, func() {
+		e := newEnv(p, shared, 0)
+		e.setup()
+		e.bindAll(first)
+		var others []*env
+		for c := 1; c < p.Consumers; c++ {
+			o := newEnv(p, shared, c)
+			o.setup()
+			o.bindAll(false)
+			others = append(others, o)
+		}
+		if p.Paused && first {
 			e.exec(Op{Op: "pause"})
 		}
-		done := make([]bool, len(p.Threads))
-		for ti, th := range p.Threads {
-			ti, th := ti, th
-			rt.GoRole("client", func() {
-				for _, op := range th {
-					e.exec(op)
-				}
-				done[ti] = true
-			})
+		var done []bool
+		if first {
+			done = make([]bool, len(p.Threads))
+			for ti, th := range p.Threads {
+				ti, th := ti, th
+				rt.GoRole("client", func() {
+					for _, op := range th {
+						e.exec(op)
+					}
+					done[ti] = true
+				})
+			}
 		}
 		if p.Errs {
-			rt.GoRole("errs", func() {
-				for {
-					ch := e.w.Errs()
-					if ch == nil {
-						rt.WaitUntil("errs-nil", func() bool { return e.w.Errs() != nil })
-						continue
-					}
+			for _, x := range append([]*env{e}, others...) {
+				x := x
+				rt.GoRole("errs", func() {
 					for {
-						v, ok := rt.Recv2(-1, ch)
-						if !ok {
-							break
+						ch := x.w.Errs()
+						if ch == nil {
+							rt.WaitUntil("errs-nil", func() bool { return x.w.Errs() != nil })
+							continue
 						}
-						rt.Log("O", "err", sesc(v.Error()))
+						for {
+							v, ok := rt.Recv2(-1, ch)
+							if !ok {
+								break
+							}
+							rt.Log("O", "err", sesc(v.Error()))
+						}
+						rt.WaitUntil("errs-new", func() bool { c2 := x.w.Errs(); return c2 != nil && c2 != ch })
 					}
-					rt.WaitUntil("errs-new", func() bool { c2 := e.w.Errs(); return c2 != nil && c2 != ch })
-				}
-			})
+				})
+			}
 		}
 		rt.WaitIdle()
 		// final observations at quiescence
-		stuck := 0
-		for _, d := range done {
-			if !d {
-				stuck++
-			}
+		e.final(done)
+		for _, o := range others {
+			m := o.w.Metrics()
+			rt.Log("F", "consumer", fmt.Sprintf("%d status=%s submitted=%d completed=%d successful=%d failed=%d", o.cidx, o.w.Status(), m.Submitted(), m.Completed(), m.Successful(), m.Failed()))
 		}
-		live := rt.NumLive()
-		w := e.w
-		m := w.Metrics()
-		rt.Log("F", "final", fmt.Sprintf("status=%s pending=%d processing=%d conc=%d idle=%d submitted=%d completed=%d successful=%d failed=%d stuck=%d livelib=%d livewf=%d",
-			w.Status(), w.NumPending(), w.NumProcessing(), w.NumConcurrency(), w.NumIdleWorkers(), m.Submitted(), m.Completed(), m.Successful(), m.Failed(), stuck, live["lib"], live["wf"]))
-		for i, q := range e.qs {
-			rt.Log("F", "queue", fmt.Sprintf("%d %d", i, q.NumPending()))
-		}
-		for _, a := range e.adapters {
+		for _, a := range *shared {
 			a.dump()
 		}
 	})
